@@ -241,8 +241,10 @@ def main():
 
     # ------------------------------------------------------------------ D: aggregates (math mode)
     agg_jobs = []
-    elem_types = [driver.t_int((0, 10)), driver.t_int((-5, 5)), driver.t_int((1, 1), (5, 5)), driver.t_float((0.0, 10.0)), driver.t_float((-1.5, 2.5)), driver.t_float((3.0, 3.0))]
-    sizes = [(1, 1), (2, 2), (3, 3), (1, 3), (0, 3)]
+    elem_types = [driver.t_int((0, 10)), driver.t_int((-5, 5)), driver.t_int((1, 1), (5, 5)), driver.t_float((0.0, 10.0)), driver.t_float((-1.5, 2.5)), driver.t_float((3.0, 3.0)),
+                  # element types with gaps (value sets, disjoint intervals): an aggregate of several elements can fall into a gap
+                  driver.t_float((0.0, 0.0), (10.0, 10.0)), driver.t_float((0.0, 1.0), (5.0, 6.0)), driver.t_int((0, 2), (8, 10))]
+    sizes = [(1, 1), (2, 2), (3, 3), (1, 3), (0, 3), (1, 2), (2, 3), (0, 1)]
     aggs = ["Sum", "Mean", "Min", "Max", "Count", "First", "Last", "Var", "Std"]
     for a in aggs:
         for et in elem_types:
